@@ -6,11 +6,11 @@
    from pkg/common/resources); the model is tied to the Go code by the correspondence run of engine
    `res`, whose oracles (Oracles/ResCheck.v) evaluate the right-hand sides used here
    (Base/ResSpec.v, Base/QuantitySpec.v) on the implementation's observed results.
-   Naming: <Op>_get = value and key set at every key; _partial = proved under a stated extra
-   hypothesis (see Base/F64Laws.v); _refuted = the pinned (pre-fix) code violates the clause. *)
+   Naming: <Op>_get = value and key set at every key; _refuted = the pinned (pre-fix) code violates
+   the clause. f_valid r = r is a canonical binary64 datum other than NaN. *)
 From Coq Require Import List ZArith NArith Bool Lia Permutation Floats.SpecFloat.
 From YK Require Import Base.Int64 Base.F64 Base.Res Base.ResMore Base.ResSpec Base.Quantity Base.QuantitySpec.
-From YK Require Import Base.Int64Laws Base.F64Laws Base.ResLemmas Base.ResLaws Base.ResLaws2 Base.ResLawsPred Base.QuantityLaws.
+From YK Require Import Base.Int64Laws Base.F64Laws Base.ResLemmas Base.ResLaws Base.ResLaws2 Base.ResLawsPred Base.QuantityLaws Base.F64Valid Base.F64Laws2.
 Import ListNotations.
 Open Scope Z_scope.
 
@@ -36,10 +36,18 @@ Theorem c18_mulValRatio_in_range :
   forall (v : Z) (r : f64), in_range (mulValRatio v r).
 Proof. exact mulValRatio_in_range. Qed.
 Print Assumptions c18_mulValRatio_in_range.
-Theorem c18_mulValRatio_clamp_partial :
-  forall (v : Z) (r : f64), f_valid (f_mul (f_of_Z v) r) = true -> mulValRatio v r = mulValRatio_spec v r.
-Proof. exact mulValRatio_clamp_partial. Qed.
-Print Assumptions c18_mulValRatio_clamp_partial.
+Theorem c18_mulValRatio_clamp :
+  forall (v : Z) (r : f64), f_valid r = true -> mulValRatio v r = mulValRatio_spec v r.
+Proof. exact mulValRatio_clamp. Qed.
+Print Assumptions c18_mulValRatio_clamp.
+Theorem c18_f_mul_valid :
+  forall x y : f64, valid_binary prec emax x = true -> valid_binary prec emax y = true -> valid_binary prec emax (f_mul x y) = true.
+Proof. exact f_mul_valid. Qed.
+Print Assumptions c18_f_mul_valid.
+Theorem c18_f_of_Z_valid :
+  forall v : Z, valid_binary prec emax (f_of_Z v) = true.
+Proof. exact f_of_Z_valid. Qed.
+Print Assumptions c18_f_of_Z_valid.
 Theorem c18_mulValRatio_pinned_refuted :
   exists (v : Z) (r : f64), in_range v /\ f_valid r = true /\ f_valid (f_mul (f_of_Z v) r) = true /\ mulValRatio_pinned v r <> mulValRatio_spec v r.
 Proof. exact mulValRatio_pinned_refuted. Qed.
@@ -126,10 +134,10 @@ Theorem c18_Multiply_keys :
   forall (b : ores) (ratio : Z) (k : tid), has (Multiply b ratio) k = has (oget b) k && negb (ratio =? 0).
 Proof. exact Multiply_keys. Qed.
 Print Assumptions c18_Multiply_keys.
-Theorem c18_MultiplyBy_get_partial :
-  forall (b : ores) (ratio : f64) (k : tid), (forall x : Z, get (oget b) k = Some x -> f_valid (f_mul (f_of_Z x) ratio) = true) -> get (MultiplyBy b ratio) k = mulBy_at ratio (get (oget b) k).
-Proof. exact MultiplyBy_get_partial. Qed.
-Print Assumptions c18_MultiplyBy_get_partial.
+Theorem c18_MultiplyBy_spec :
+  forall (b : ores) (ratio : f64) (k : tid), f_valid ratio = true -> get (MultiplyBy b ratio) k = mulBy_at ratio (get (oget b) k).
+Proof. exact MultiplyBy_spec. Qed.
+Print Assumptions c18_MultiplyBy_spec.
 Theorem c18_ComponentWiseMin_get :
   forall (l r : ores) (k : tid), owf l -> owf r -> get (oget (ComponentWiseMin l r)) k = cwmin_at (get (oget l) k) (get (oget r) k).
 Proof. exact ComponentWiseMin_get. Qed.
